@@ -63,22 +63,27 @@ CHECKS = {
     'C01': ('boundary recorder on both real searches + legality oracle from the generator\'s own eligibility rows; admitted-set reference model',
             'Every design returned by exhaustive_search and greedy_search on generated panels / eligibility matrices / '
             'constraint mixes (2-7 geos for both, up to 30 geos greedy-only; thorough: every multiset of row classes on '
-            '<=5 geos x {none, n_geos_max, share, budget}) is checked for non-empty disjoint groups of data geos, '
-            'treatment / control eligibility, no must-exclude geo, and every not-excludable geo placed; '
-            'geos_within_constraints is compared with an independent model of the documented pre-selection.', '§5 C01'),
+            '<=5 geos x {none, n_geos_max, share, budget}; eligibility frames with permuted columns, subset / superset / both; '
+            'a quarter of the cases share the data object with a second search object, a fifth pre-install a geo index) is '
+            'checked for non-empty disjoint groups of data geos, treatment / control eligibility, no must-exclude geo, every '
+            'not-excludable geo placed; geos_within_constraints is compared with an independent model of the pre-selection.',
+ '§5 C01; §11.5'),
     'C02': ('boundary recorder on both real searches + constraint oracle recomputed from the raw frame (exact rationals, independent closed-form budget)',
             'Every returned design of both searches is re-evaluated from the raw input frame against each specified '
             'constraint: group sizes and |C|/|T| in exact rational arithmetic (bounds inclusive, on-bound instances '
             'generated), volume ratio, treatment share (either documented reading), required budget via an independent '
-            'closed form; ranges are calibrated on the data so that constraints bind, incl. greedy with budget ranges.',
-            '§5 C02'),
+            'closed form; ranges are calibrated on the data so that constraints bind, incl. greedy with budget ranges; '
+            'two-phase near-bound cases put a bound 1e-7..3e-6 inside the measured value of a previously returned design.',
+ '§5 C02; §11.5'),
     'C03': ('differential monitor: real exhaustive_search vs independent brute-force design space; P-HEAP online container model',
             'For 1-6 (quick) / 1-8 (thorough) admitted geos the complete control/treatment/neither assignment space is '
             'enumerated independently, filtered by every constraint and scored with a pristine copy of the diagnostics; '
             'the real result must contain min(k, |must|) distinct feasible designs, best first, with oracle-equal scores, '
             'and no feasible non-omittable design outside it may score strictly higher than the worst returned one '
-            '(omittable exactly as the statement allows); P-HEAP checks the container against the recorded push stream.',
-            '§5 C03'),
+            '(omittable exactly as the statement allows); share ranges whose lower bound binds inside one group size, flat '
+            'and skewed size profiles, response units 2^-20..2^30, shared data objects; a ValueError is accepted only when the '
+            'oracle cannot score some admissible pair either; P-HEAP checks the container against the recorded push stream.',
+ '§5 C03; §11.5'),
     'C04': ('boundary recorder + per-design pristine recomputation from the reported geo IDs (raw-frame pivot, shadow diagnostics, closed-form referee)',
             'For every design at every list position of both searches the series held by its diagnostics are compared with '
             'sums over the reported geo IDs of the raw responses on the last n_pretest_max dates, and corr, required impact, '
